@@ -262,3 +262,278 @@ class SimpleObjectDeserialize:
         ]
 
     loops = {0: "_inv0", 1: "_inv1"}
+
+
+# ---------------------------------------------------------------------------------------------
+# ObjectMethod.deserialize, configuration 1: no aggregate (flattened / pattern / additional)
+# field and no validator -- the general object node on plain declared fields (appendix A.1)
+
+
+def req_by(F, j):
+    return A("required_by")[fld(F, j)]
+
+
+def name_(F, j):
+    return A("name")[fld(F, j)]
+
+
+def dep_required(F, D, j):
+    k = z3.Const("kq", Val)
+    rb = req_by(F, j)
+    return z3.And(rb != T.None_, z3.Exists([k], z3.And(dhas0[rb][k], dhas0[D][k])))
+
+
+def bad2(F, D, j):
+    a = alias(F, j)
+    return z3.If(dhas0[D][a], z3.And(z3.Not(T.acc(meth(F, j), dget0[D][a])), z3.Or(req(F, j), z3.Not(fbd(F, j)))), z3.Or(req(F, j), dep_required(F, D, j)))
+
+
+def is_field_bad_key2(F, D, k, upto):
+    j = z3.Int("jb")
+    return z3.Exists([j], z3.And(j >= 0, j < upto, alias(F, j) == k, bad2(F, D, j)))
+
+
+def one_message_error(c, e):
+    m, ch = c.attr(e, "messages"), c.attr(e, "children")
+    return z3.And(cls(e) == K("ValidationError"), isinst(m, "list"), c.llen(m) == 1, isinst(ch, "dict"), c.dlen(ch) == 0, c.alloc(e), c.alloc(m), c.alloc(ch))
+
+
+def field_children2(c, ch, F, D, upto, missing, apart=()):
+    """`apart`: dicts of this activation the nested (empty) children dicts are distinct from"""
+    j = z3.Int("j")
+    a = lambda jj: alias(F, jj)  # noqa: E731
+    sep = lambda e: z3.And(*[c.attr(e, "children") != o for o in apart]) if apart else z3.BoolVal(True)  # noqa: E731
+    return T.forall(
+        [j],
+        z3.Implies(
+            z3.And(j >= 0, j < upto, bad2(F, D, j)),
+            z3.And(
+                c.dhas(ch, a(j)),
+                z3.If(
+                    dhas0[D][a(j)],
+                    c.dget(ch, a(j)) == T.err(meth(F, j), dget0[D][a(j)]),
+                    z3.And(z3.If(req(F, j), S.is_message_error(c, c.dget(ch, a(j)), missing), one_message_error(c, c.dget(ch, a(j)))), sep(c.dget(ch, a(j)))),
+                ),
+            ),
+        ),
+        patterns=[fld(F, j)],
+    )
+
+
+def values_ok(c, values, F, D, upto):
+    """values = { name_j : img(m_j, D[alias_j]) | j < upto, alias_j in D, accepted }"""
+    j = z3.Int("j")
+    k = z3.Const("k", Val)
+    got = lambda jj: z3.And(dhas0[D][alias(F, jj)], T.acc(meth(F, jj), dget0[D][alias(F, jj)]))  # noqa: E731
+    return z3.And(
+        T.forall([j], z3.Implies(z3.And(j >= 0, j < upto, got(j)), z3.And(c.dhas(values, name_(F, j)), c.dget(values, name_(F, j)) == T.img(meth(F, j), dget0[D][alias(F, j)]))), patterns=[fld(F, j)]),
+        T.forall([k], z3.Implies(c.dhas(values, k), z3.Exists([j], z3.And(j >= 0, j < upto, name_(F, j) == k, got(j)))), patterns=[c.dhas(values, k)]),
+    )
+
+
+@contract(f"{M}:ObjectMethod.deserialize#plain-fields", props=["C01", "C02", "C03", "C13"])
+class ObjectPlainDeserialize:
+    kinds = {
+        "data": "dict",
+        "self.fields": "tuple",
+        "self.all_aliases": "set",
+        "data.keys() - self.all_aliases": "set",
+        "values": "dict",
+        "err.messages": "list",
+        "field.required_by": "set",
+    }
+    raises = ["ValidationError"]
+    int_vars = ["fields_count"]
+    str_concat = True
+    shards = 16
+
+    def _terms(self, c):
+        s, data = c.self, c.data
+        F, AA = c.attr0(s, "fields"), c.attr0(s, "all_aliases")
+        isd = isinst(data, "dict")
+        D = z3.If(isd, data, c.attr0(data, "data"))
+        disc = z3.If(isd, T.None_, c.attr0(data, "discriminator"))
+        return s, data, F, AA, D, disc
+
+    def requires(self, c):
+        s, data, F, AA, D, disc = self._terms(c)
+        j, i = z3.Int("j"), z3.Int("i")
+        k = z3.Const("k", Val)
+        n = c.llen0(F)
+        boolv = lambda v: cls(v) == K("bool")  # noqa: E731
+        rb = lambda jj: req_by(F, jj)  # noqa: E731
+        return [
+            isinst(s, "ObjectMethod"),
+            # this configuration: no aggregate field, no validator
+            c.attr0(s, "aggregate_fields") == T.False_,
+            isinst(c.attr0(s, "validators"), "tuple"),
+            c.llen0(c.attr0(s, "validators")) == 0,
+            cls(F) == K("tuple"),
+            isinst(c.attr0(s, "constraints"), "tuple"),
+            z3.Or(cls(AA) == K("set"), cls(AA) == K("frozenset")),
+            boolv(c.attr0(s, "typed_dict")),
+            boolv(c.attr0(s, "additional_properties")),
+            isinst(c.attr0(s, "missing"), "str"),
+            isinst(c.attr0(s, "unexpected"), "str"),
+            T.forall(
+                [j],
+                z3.Implies(
+                    z3.And(j >= 0, j < n),
+                    z3.And(
+                        isinst(alias(F, j), "str"),
+                        isinst(name_(F, j), "str"),
+                        boolv(A("required")[fld(F, j)]),
+                        boolv(A("fall_back_on_default")[fld(F, j)]),
+                        z3.Or(rb(j) == T.None_, cls(rb(j)) == K("set"), cls(rb(j)) == K("frozenset")),
+                    ),
+                ),
+                patterns=[fld(F, j)],
+            ),
+            T.forall([i, j], z3.Implies(z3.And(i >= 0, i < j, j < n), z3.And(alias(F, i) != alias(F, j), name_(F, i) != name_(F, j))), patterns=[z3.MultiPattern(fld(F, i), fld(F, j))]),
+            T.forall([k], c.dhas0(AA, k) == z3.Exists([j], z3.And(j >= 0, j < n, alias(F, j) == k)), patterns=[c.dhas0(AA, k)]),
+            z3.Implies(isinst(data, "Discriminated"), isinst(c.attr0(data, "discriminator"), "str")),
+            z3.Implies(isinst(D, "dict"), T.forall([k], z3.Implies(c.dhas0(D, k), isinst(k, "str")), patterns=[c.dhas0(D, k)])),
+        ]
+
+    def lemmas(self, c):
+        s, data, F, AA, D, disc = self._terms(c)
+        hasD = dhas0[D]
+        return T.card_axioms() + [z3.Implies(isinst(D, "dict"), c.dlen0(D) == T.card(hasD)), T.card_subset_eq(pres(F, hasD, c.llen0(F)), hasD)]
+
+    def _shape(self, c):
+        s, data, F, AA, D, disc = self._terms(c)
+        return z3.And(isinst(D, "dict"), z3.Or(isinst(data, "dict"), isinst(data, "Discriminated")))
+
+    def ensures(self, c):
+        s, data, F, AA, D, disc = self._terms(c)
+        n = c.llen0(F)
+        cs = c.attr0(s, "constraints")
+        j = z3.Int("j")
+        k = z3.Const("k", Val)
+        shape = self._shape(c)
+        addl = c.attr0(s, "additional_properties") == T.True_
+        td = c.attr0(s, "typed_dict") == T.True_
+        unexpected = lambda kk: z3.And(z3.Not(addl), c.dhas0(D, kk), z3.Not(c.dhas0(AA, kk)), kk != disc)  # noqa: E731
+        conf = z3.And(
+            shape,
+            S.all_hold(cs, D),
+            T.forall([j], z3.Implies(z3.And(j >= 0, j < n), z3.Not(bad2(F, D, j))), patterns=[fld(F, j)]),
+            T.forall([k], z3.Not(unexpected(k)), patterns=[c.dhas0(D, k)]),
+        )
+        out = {"C01: returns iff data is an object satisfying its constraints, with every required (also dependent-required) property, every present declared property conforming or falling back, and no unexpected property unless allowed": c.returned == conf}
+        if c.is_return:
+            values = c.local_val("values")
+            out["C01: the object is constructed from exactly the deserialized present fields (absent / fallen-back ones get their default from the constructor)"] = z3.And(
+                c.result == CONSTRUCTED(c.attr0(s, "constructor"), values),
+                c.fresh(values),
+                z3.Implies(z3.Not(z3.And(addl, td)), values_ok(c, values, F, D, n)),
+            )
+        if c.is_raise:
+            e = c.exc
+            m, ch = c.attr(e, "messages"), c.attr(e, "children")
+            out["C02: type error, or the failing constraints' messages and exactly one child per missing / dependent-required / rejected / unexpected property, under its alias"] = z3.If(
+                z3.Not(shape),
+                S.is_bad_type_error(c, e, z3.If(z3.Or(isinst(data, "dict"), z3.Not(isinst(data, "Discriminated"))), data, D), [K("dict")]),
+                z3.And(
+                    cls(e) == K("ValidationError"),
+                    S.msgs_are_failures(c, m, cs, D, c.llen0(cs)),
+                    isinst(ch, "dict"),
+                    T.forall([k], c.dhas(ch, k) == z3.Or(is_field_bad_key2(F, D, k, n), unexpected(k)), patterns=[c.dhas(ch, k)]),
+                    field_children2(c, ch, F, D, n, c.attr0(s, "missing")),
+                    T.forall([k], z3.Implies(unexpected(k), S.is_message_error(c, c.dget(ch, k), c.attr0(s, "unexpected"))), patterns=[c.dget(ch, k)]),
+                ),
+            )
+        return out
+
+    def _common(self, c):
+        s, data, F, AA, D, disc = self._terms(c)
+        cs = c.attr0(s, "constraints")
+        errors = c.local_val("errors")
+        values = c.local_val("values")
+        return [
+            c.local_val("data") == D,
+            isinst(D, "dict"),
+            c.local_val("discriminator") == disc,
+            # `errors`: None iff every object constraint holds, else a fresh list of the failures
+            z3.If(S.all_hold(cs, D), z3.And(errors == T.None_, S.nfail(cs, D, c.llen0(cs)) == 0), z3.And(isinst(errors, "list"), c.fresh(errors), c.llen(errors) >= 1, S.msgs_are_failures(c, errors, cs, D, c.llen0(cs)))),
+            cls(values) == K("dict"),
+            c.fresh(values),
+        ]
+
+    def _inv0(self, c):
+        s, data, F, AA, D, disc = self._terms(c)
+        i = c.index
+        errs = c.local_val("field_errors")
+        values = c.local_val("values")
+        cnt = c.local_int("fields_count")
+        hasD = dhas0[D]
+        k = z3.Const("k", Val)
+        j = z3.Int("j")
+        return self._common(c) + [
+            cnt == T.card(pres(F, hasD, i)),
+            T.forall([k], z3.Implies(pres(F, hasD, i)[k], z3.And(hasD[k], z3.Exists([j], z3.And(j >= 0, j < i, alias(F, j) == k)))), patterns=[pres(F, hasD, i)[k]]),
+            values_ok(c, values, F, D, i),
+            errs != values,
+            z3.Or(errs == T.None_, z3.And(isinst(errs, "dict"), c.fresh(errs))),
+            z3.Implies(errs == T.None_, T.forall([j], z3.Implies(z3.And(j >= 0, j < i), z3.Not(bad2(F, D, j))), patterns=[fld(F, j)])),
+            z3.Implies(
+                errs != T.None_,
+                z3.And(c.dlen(errs) >= 1, T.forall([k], c.dhas(errs, k) == is_field_bad_key2(F, D, k, i), patterns=[c.dhas(errs, k)]), field_children2(c, errs, F, D, i, c.attr0(s, "missing"), apart=[values]), z3.Exists([j], z3.And(j >= 0, j < i, bad2(F, D, j)))),
+            ),
+        ]
+
+    def _inv_unexpected(self, c):
+        """the loop recording unexpected properties (additional properties not allowed)"""
+        s, data, F, AA, D, disc = self._terms(c)
+        n = c.llen0(F)
+        errs = c.local_val("field_errors")
+        values = c.local_val("values")
+        seen = c.seen
+        k = z3.Const("k", Val)
+        j = z3.Int("j")
+        addl = c.attr0(s, "additional_properties") == T.True_
+        extra = lambda kk: z3.And(seen[kk], kk != disc)  # noqa: E731
+        return self._common(c) + [
+            z3.Not(addl),
+            values_ok(c, values, F, D, n),
+            errs != values,
+            T.forall([k], z3.Implies(seen[k], z3.And(c.dhas0(D, k), z3.Not(c.dhas0(AA, k)))), patterns=[seen[k]]),
+            z3.Or(errs == T.None_, z3.And(isinst(errs, "dict"), c.fresh(errs))),
+            z3.Implies(errs == T.None_, z3.And(T.forall([j], z3.Implies(z3.And(j >= 0, j < n), z3.Not(bad2(F, D, j))), patterns=[fld(F, j)]), T.forall([k], z3.Implies(seen[k], k == disc), patterns=[seen[k]]))),
+            z3.Implies(
+                errs != T.None_,
+                z3.And(
+                    c.dlen(errs) >= 1,
+                    T.forall([k], c.dhas(errs, k) == z3.Or(is_field_bad_key2(F, D, k, n), extra(k)), patterns=[c.dhas(errs, k)]),
+                    field_children2(c, errs, F, D, n, c.attr0(s, "missing"), apart=[values]),
+                    T.forall([k], z3.Implies(extra(k), z3.And(S.is_message_error(c, c.dget(errs, k), c.attr0(s, "unexpected")), c.attr(c.dget(errs, k), "children") != values)), patterns=[c.dget(errs, k), seen[k]]),
+                    z3.Or(z3.Exists([j], z3.And(j >= 0, j < n, bad2(F, D, j))), z3.Exists([k], extra(k))),
+                ),
+            ),
+        ]
+
+    def _inv_extras(self, c):
+        """the loop copying the additional properties of a TypedDict (additional properties allowed)"""
+        s, data, F, AA, D, disc = self._terms(c)
+        n = c.llen0(F)
+        errs = c.local_val("field_errors")
+        k = z3.Const("k", Val)
+        j = z3.Int("j")
+        addl = c.attr0(s, "additional_properties") == T.True_
+        td = c.attr0(s, "typed_dict") == T.True_
+        return self._common(c) + [
+            addl,
+            td,
+            errs != c.local_val("values"),
+            z3.Or(errs == T.None_, z3.And(isinst(errs, "dict"), c.fresh(errs))),
+            z3.Implies(errs == T.None_, T.forall([j], z3.Implies(z3.And(j >= 0, j < n), z3.Not(bad2(F, D, j))), patterns=[fld(F, j)])),
+            z3.Implies(
+                errs != T.None_,
+                z3.And(c.dlen(errs) >= 1, T.forall([k], c.dhas(errs, k) == is_field_bad_key2(F, D, k, n), patterns=[c.dhas(errs, k)]), field_children2(c, errs, F, D, n, c.attr0(s, "missing"), apart=[c.local_val("values")]), z3.Exists([j], z3.And(j >= 0, j < n, bad2(F, D, j)))),
+            ),
+        ]
+
+    # loop ordinals are positions in the source text of the whole function; only the loops
+    # reachable in this configuration need an invariant: 0 = fields, 5 / 6 = the two loops of
+    # the `elif len(data) != fields_count` branch
+    loops = {0: "_inv0", 5: "_inv_unexpected", 6: "_inv_extras"}
